@@ -389,7 +389,14 @@ func runScript(sc *Script) *Outcome {
 	var concOnce sync.Once
 	aborted := false
 	for i, call := range sc.Prog {
+		if call.Api == "sleep" {
+			time.Sleep(time.Duration(call.Ms) * time.Millisecond)
+			continue
+		}
 		closedBefore := r.isClosed()
+		srv.mu.Lock()
+		nreqBefore := srv.nreq
+		srv.mu.Unlock()
 		if sc.ConcAt == i+1 {
 			d := time.Duration(sc.ConcClose) * time.Millisecond
 			go func() {
@@ -413,6 +420,14 @@ func runScript(sc *Script) *Outcome {
 			continue
 		}
 		cr.Class = classify(co.err)
+		// "within its timeouts": every request of the call may take WriteTimeout + ReadTimeout, a dial ReadTimeout
+		srv.mu.Lock()
+		nreqCall := srv.nreq - nreqBefore
+		srv.mu.Unlock()
+		if lim := (nreqCall+2)*int(rt.Milliseconds()) + 1000; ms > lim && sc.ConcAt == 0 {
+			r.viol("call-returns", "call-slow:"+call.Api,
+				fmt.Sprintf("%s took %d ms with %d requests on the wire (ReadTimeout=WriteTimeout=%v, allowed %d ms)", call.Api, ms, nreqCall, rt, lim))
+		}
 		if co.desc != nil {
 			r.desc = co.desc
 		}
